@@ -120,6 +120,11 @@ def result_member(prog, V, vis):
 
 def run(loader, R, tier):
     prog = loader()
+    from selib import signpred
+    R.rule("R34.0", "is_negative/is_zero/is_positive of Integer, Rational, "
+                   "RealDouble are the comparisons of the value with 0 "
+                   "(grounds the trusted atom table)")
+    signpred.ground(prog, R, "R34.0")
     V = Visitors(prog)
     D = QDomain(prog)
     I = Interp(prog, D)
